@@ -1,24 +1,41 @@
 #!/usr/bin/env python3
-"""tools/mutation_table.py: print the markdown table of seeded changes (seeded/*/meta.json) for DESIGN.md §9."""
-import json, os, glob
+"""tools/mutation_table.py [--write]: the markdown table of seeded changes (seeded/*/meta.json) and of the harmless refactorings (harmless/*/meta.json)
+for DESIGN.md §9; --write puts it between the MUTATION-TABLE markers of DESIGN.md."""
+import json, os, glob, sys
 V = os.path.dirname(os.path.dirname(os.path.abspath(__file__)))
-rows = []
+
+
+def cell(x, n):
+    x = (x or '').replace('|', '\\|').replace('\n', ' ')
+    return x if len(x) <= n else x[:n - 1] + '…'
+
+
+rows, n, own, any_ = [], 0, 0, 0
 for m in sorted(glob.glob(os.path.join(V, 'seeded', '*', 'meta.json'))):
     d = json.load(open(m))
-    first = d['history'][0]['caught_by'] if d.get('history') else d['caught_by']
-    def cell(x):
-        return (x or '').replace('|', '\\|').replace('\n', ' ')
-    needs = cell(d.get('needs'))
-    if len(needs) > 230:
-        needs = needs[:227] + '…'
-    summ = cell(d.get('summary'))
-    if len(summ) > 200:
-        summ = summ[:197] + '…'
-    rows.append('| %s | %s | %s | %s | %s |' % (d['id'], summ, needs, ', '.join(first) or '**missed**', ', '.join(d['caught_by']) or '**missed**'))
-print('| Seed | Change | Needs | Caught at first run by | Caught now by |')
-print('|---|---|---|---|---|')
-print('\n'.join(rows))
-n = len(rows)
-own = sum(1 for m in glob.glob(os.path.join(V, 'seeded', '*', 'meta.json')) if json.load(open(m)).get('own_property_check_catches'))
-any_ = sum(1 for m in glob.glob(os.path.join(V, 'seeded', '*', 'meta.json')) if json.load(open(m)).get('caught_by'))
-print('\n%d seeded changes; %d caught by at least one check, %d caught by the check of the property they were written against.' % (n, any_, own))
+    hist = [h for h in d.get('history', []) if h.get('caught_by') is not None]
+    first = hist[0]['caught_by'] if hist else d['caught_by']
+    n += 1
+    own += bool(d.get('own_property_check_catches'))
+    any_ += bool(d['caught_by'])
+    rows.append('| %s | %s | %s | %s | %s |' % (d['id'], cell(d.get('summary'), 150), cell(d.get('needs'), 170), ', '.join(first) or '**missed**',
+                                                 ', '.join(d['caught_by']) or '**missed**'))
+out = ['| Seed | Change | Needs | Caught at its first run by | Caught now by |', '|---|---|---|---|---|'] + rows
+out.append('')
+out.append('%d seeded changes; %d caught by at least one check, %d caught by the check of the property they were written against (the full texts, the patches and the '
+           'demonstrations are in `seeded/<id>/`; "first run" = the state of the harness when the change was first tried, see `history` in each `meta.json`).' % (n, any_, own))
+hm = sorted(glob.glob(os.path.join(V, 'harmless', '*', 'meta.json')))
+al = [(os.path.basename(os.path.dirname(m)), json.load(open(m)).get('alarms', [])) for m in hm]
+out.append('')
+out.append('%d behaviour-preserving refactorings (`harmless/<id>/`), each run against all twenty quick checks with the source ties in place: %s.'
+           % (len(al), 'no alarm' if not any(a for _, a in al) else 'alarms: ' + '; '.join('%s: %s' % (i, ','.join(a)) for i, a in al if a)))
+text = '\n'.join(out)
+if '--write' in sys.argv:
+    p = os.path.join(V, 'DESIGN.md')
+    s = open(p).read()
+    a, b = s.index('<!-- MUTATION-TABLE-BEGIN -->'), s.index('<!-- MUTATION-TABLE-END -->')
+    s = s[:a] + '<!-- MUTATION-TABLE-BEGIN -->\n' + text + '\n' + s[b:]
+    open(p, 'w').write(s)
+    print('written: %d rows' % n)
+else:
+    print(text)
